@@ -1,2 +1,2 @@
 from .parser import parse_dump, Module, Func
-from .exec import Engine, State, Unsupported
+from .exec import Engine, State, Unsupported, Event
